@@ -49,7 +49,7 @@ def run_one(tape: Any, cfg: Dict[str, Any], forbid: FrozenSet[str] = frozenset()
 
     g = Gen(tape, forbid)
     res = Result()
-    with World(tape) as w:
+    with World(tape, step_cap=1500000) as w:
         scen.sched_swarm(w, tape)
         T = [1, 2, 3, 5, 10][tape.draw(5, 'timeout')]
         threaded = g.feature('threaded', 0.3)
@@ -73,7 +73,7 @@ def run_one(tape: Any, cfg: Dict[str, Any], forbid: FrozenSet[str] = frozenset()
             role = ['tunnel', 'keepalive', 'web', 'half_request', 'silent'][tape.weighted([4, 3, 2, 1, 1], 'role')]
             w.probe(role)
             ip = '10.0.1.%d' % (k + 1)
-            cap_c = [65536, 1024, 64][tape.draw(3, 'capc')]
+            cap_c = [4096, 1024, 64][tape.draw(3, 'capc')]      # a read pause moves 4 x cap_c bytes, possibly 16 at a time
             t = [0.0, 0.3, 0.7][tape.draw(3, 'start')]
             c: Dict[str, Any] = {'k': k, 'role': role, 'ip': ip, 't_connect': t, 'b': None, 'pz_since': 0.0,
                                  'ended': None, 'gaps': []}
@@ -194,7 +194,7 @@ def run_one(tape: Any, cfg: Dict[str, Any], forbid: FrozenSet[str] = frozenset()
             a = o.conns[0].st.peer       # proxy side of the upstream connection
             if a is None:
                 return 0
-            consumed = a.rx_total - len(a.rx)
+            consumed = a.read_total      # what the proxy really read (bytes still queued, or discarded by close, do not count)
             sent = c['b'].tx_total
             if c['role'] == 'tunnel':
                 ack = c.get('ack')
